@@ -31,7 +31,7 @@ P = {
     "theorems_module": "Properties.C11",
     "theorems": ["C11_no_boundary_shift", "C11_collision_needs_shift", "C11_F4_refuted", "C11_key_deterministic", "C11_F1_refuted",
                  "C11_key_injective", "C11_cache_transparent", "C11_cache_transparent_repaired", "C11_nonvacuous", "C11_nonvacuous_mixed",
-                 "C11_identical_requests_hit",
+                 "C11_identical_requests_hit", "C11_stored_entry_is_returned",
                  "C11_F2_refuted", "C11_F3_refuted", "C11_F4_history_refuted", "C11_F6_refuted", "C11_F7_refuted", "C11_F10_refuted",
                  "C11_cc_cache_transparent", "C11_cc_F4_refuted", "C11_jf_cache_transparent", "C11_F5_refuted",
                  "C11_hc_cache_transparent", "C11_hc_cache_transparent_repaired", "C11_F8_refuted", "C11_F9_refuted",
@@ -39,7 +39,7 @@ P = {
     "streams": [{
         "name": "histories", "pkg": "./internal/rules/mechanisms", "test": "TestVerifC11",
         "overlay": OVERLAY, "eval_module": "Run.Eval_C11", "check_term": "check fx_all",
-        "n_quick": 500, "n_thorough": 6000, "shard": 44,
+        "n_quick": 450, "n_thorough": 6000, "shard": 44,
         "findings": {4: "C11-F4", 6: "C11-F6", 7: "C11-F7"},
     }, {
         "name": "keys", "pkg": "./internal/rules/mechanisms", "test": "TestVerifC11Keys",
@@ -57,7 +57,10 @@ P = {
             "up to four kinds of mechanisms on the one shared cache; subject ids, tokens, header values and outputs come in different "
             "lengths; each step is derived from an earlier one as identical / other instance / one request component changed (subject, "
             "attribute, each referenced header, cookie, output, credential) / two values shifted against each other, and every further "
-            "instance of a history is used at least twice; every history runs against one shared recording cache, again without cache, "
+            "instance of a history is used at least twice, and in 45% of the histories the first look-ups are repeated at the end, "
+            "after later ones have stored their entries (A B A, A B C A B; subjects, values and tokens of EQUAL length are in the "
+            "pools too, so that serialised entries are equally long); every history runs against one shared cache - the REAL in-memory "
+            "backend (internal/cache/memory, keeps the slices it is given) behind a wrapper that records the look-ups -, again without cache, "
             "and one step 20 times against empty caches (map order); a local httptest server plays the remote systems and echoes what "
             "it receives. Observed per step: key looked up, hit, remote calls, decision (allow with the echoed request / subject / "
             "scopes / audience / active flag, or refusal) and the headers handed on to the upstream service, with and without cache. "
@@ -91,7 +94,9 @@ P = {
         "as a correspondence failure, so a harmless change of the merge rules ends as `correspondence differs`)",
         "keys are compared up to renaming within a case (which look-ups share a key); whether the observed key bytes are those of the "
         "modelled pre-image layout is reported as key_layout_drift under extra_coverage and is not a verdict",
-        "the cache itself (internal/cache) is replaced by a recording map: key truncation or folding inside a cache backend is out of scope",
+        "the cache is the real in-memory backend (ttlcache, no copying of stored slices) behind a recording wrapper, never started "
+        "(no expiry goroutine); the redis backend is not exercised; whether a buffer reused through sync.Pool really comes back "
+        "depends on the Go scheduler (same goroutine, no GC in between: observed in every run so far)",
         "stream keys: ES256 signature verification, JWK thumbprints and the RFC 7234 response parser (cachecontrol) are oracles "
         "(which key verifies a token / thumbprint bytes / 'storable' are case data); the harness's servers are honest about Vary",
     ],
@@ -105,11 +110,13 @@ P = {
                   "finding fires, every outcome with the cache equals the outcome of a fresh evaluation under the instance's own "
                   "policy (cache transparency, also for the token caches, the key cache with forged issuer claims and with keys that "
                   "fail validation, and the finalizer across key-store reloads); an identical request after an allowed one is answered "
-                  "without a remote call. The guard of F4 is exact (equal pre-image bytes of different writes), the guards of F6/F7 fire "
+                  "without a remote call, and what a look-up stores is what every later look-up of that key receives after any "
+                  "sequence of other look-ups and stores (entries are stable; checked on the real in-memory backend with A B A / "
+                  "A B C A B histories of every caching mechanism). The guard of F4 is exact (equal pre-image bytes of different writes), the guards of F6/F7 fire "
                   "only for two look-ups that share a key; two proved witnesses (one kind; three kinds with values of different lengths) "
                   "show the hypotheses are satisfiable. Every open finding (F4, F6, F7) has a guard and a proved witness; the repaired "
                   "ones (F1, F2, F3, F5, F8, F9, F10, F11) are model switches with the pinned behaviour kept as refutation. The model is "
-                  "tied to the code by running 500+300 (quick) / 6000+3000 (thorough) generated histories per run through the real "
+                  "tied to the code by running 450+300 (quick) / 6000+3000 (thorough) generated histories per run through the real "
                   "mechanisms with a recording cache and comparing inside Coq which look-ups share a key, hits, remote call counts, "
                   "decisions and upstream headers; the property verdict compares what the real code returned with the cache against "
                   "what the real code returned without it, not against the model.",
@@ -122,7 +129,8 @@ P = {
                   "stored, no response with Vary stored), F10 abc25e7 (session lifespan asserted on a hit), F11 d20d7cd (a cached JWK "
                   "that fails validation is ignored and fetched again). Not covered: the claims template of the jwt finalizer beyond "
                   ".Subject.ID/.Outputs, http_message_signatures' hash, introspection via metadata_endpoint, key collisions ACROSS "
-                  "kinds of mechanisms on one URL (excluded by the F4 guard on the endpoint level), the cache backends.",
+                  "kinds of mechanisms on one URL (excluded by the F4 guard on the endpoint level), the redis cache backend. Aliasing of stored "
+                  "entries through sync.Pool'ed buffers is caught on the in-memory backend but depends on the scheduler handing the buffer back.",
     "assumptions": [
         "time is not modelled: all look-ups of a history happen within the TTL (expiry is C10)",
         "the remote system is a deterministic function of the request it receives (what 'a fresh evaluation would yield' means)",
